@@ -246,7 +246,9 @@ def mutate(rnd, root, specs):
             return root, 'drop-key'
         if c < 0.6:
             k, v = n.value[i]
-            n.value.insert(rnd.randrange(len(n.value) + 1), (encode.copy_tree(k), S('dup')))
+            n.value.insert(rnd.randrange(len(n.value) + 1),
+                           (encode.copy_tree(k), rnd.choice([S('dup'), S('true', 'bool'), S('false', 'bool'), S('7', 'int'),
+                                                             S('1.5', 'float'), S('', 'null'), encode.copy_tree(v)])))
             return root, 'duplicate-key'
         if c < 0.8:
             k, v = n.value[i]
@@ -256,6 +258,13 @@ def mutate(rnd, root, specs):
         k, v = n.value[i]
         n.value[i] = (rnd.choice([Q([S('k')]), M([]), S('1', 'int'), S('', 'null')]), v)
         return root, 'complex-key'
+    if r < 0.64 and isinstance(n, yaml.MappingNode):
+        # a merge key supplying (possibly ill-typed) attributes
+        names = [k.value for k, _ in n.value if isinstance(k, yaml.ScalarNode)] + ['a', 'b', 'c_d', 'e']
+        sub = M([(S(rnd.choice(names)), rnd.choice([S('true', 'bool'), S('7', 'int'), S('x'), Q([S('false', 'bool')])]))
+                 for _ in range(rnd.randrange(1, 3))])
+        n.value.insert(rnd.randrange(len(n.value) + 1), (S('<<', 'merge'), sub if rnd.random() < 0.8 else Q([sub])))
+        return root, 'merge-key'
     if r < 0.7 and isinstance(n, yaml.MappingNode):
         n.value.append((S(rnd.choice(['added', 'a', 'kind', 'self', 'extra1'])), gen_node(rnd, specs, 'any', 1)))
         return root, 'add-key'
@@ -414,6 +423,47 @@ def eval_cases(name, terms, per_shard=150):
     return nodeops.eval_shards(name, terms, per_shard=per_shard, header=HEADER, fn='load_mismatches', ctype='loadcase')
 
 
+def wrong_value(rnd, t):
+    """A node of the wrong YAML type for t that Python's isinstance would nevertheless accept, or just a wrong one."""
+    if t == 'int':
+        return S(rnd.choice(['true', 'false']), 'bool')
+    if isinstance(t, tuple) and t[0] == 'list':
+        return Q([wrong_value(rnd, t[2])])
+    if isinstance(t, tuple) and t[0] == 'dict':
+        return M([(S('k'), wrong_value(rnd, t[3]))])
+    if isinstance(t, tuple) and t[0] in ('union', 'optional'):
+        return S('true', 'bool')
+    return rnd.choice([S('true', 'bool'), S('7', 'int'), S('x'), Q([])])
+
+
+def directed_cases(rnd, specs):
+    """Documents aimed at the attribute type check: a duplicated or merged-in parameter whose second value is
+    ill-typed in a way isinstance() cannot see (bool for int), for every object class of the model."""
+    for s in specs:
+        if s['kind'] != 'obj' or not s.get('registered', True) or not s['params']:
+            continue
+        try:
+            base = gen_node(rnd, specs, ('class', s['name']))
+        except (IndexError, ValueError):
+            continue
+        if not isinstance(base, yaml.MappingNode):
+            continue
+        for p in s['params']:
+            w = wrong_value(rnd, p.get('type'))
+            has = [i for i, (k, _) in enumerate(base.value) if k.value == p['name']]
+            d1 = encode.copy_tree(base)
+            d1.value.append((S(p['name']), encode.copy_tree(w)))
+            yield ('class', s['name']), d1, 'directed-duplicate'
+            d2 = encode.copy_tree(base)
+            d2.value = [kv for kv in d2.value if kv[0].value != p['name']]
+            d2.value.insert(0, (S('<<', 'merge'), M([(S(p['name']), encode.copy_tree(w))])))
+            yield ('class', s['name']), d2, 'directed-merge'
+            if has:
+                d3 = encode.copy_tree(base)
+                d3.value[has[0]] = (d3.value[has[0]][0], encode.copy_tree(w))
+                yield ('class', s['name']), d3, 'directed-wrong-type'
+
+
 # ---------------------------------------------------------------- standard case stream
 
 def gen_cases(rnd, n_models, docs_per_model, hooks=True, share_p=0.0):
@@ -421,6 +471,12 @@ def gen_cases(rnd, n_models, docs_per_model, hooks=True, share_p=0.0):
     for _ in range(n_models):
         specs = gen_model(rnd, hooks=hooks)
         names = [s['name'] for s in specs if s.get('registered', True)]
+        if rnd.random() < 0.5:
+            for tyspec, node, desc in directed_cases(rnd, specs):
+                try:
+                    yield specs, tyspec, serialize(node), desc
+                except Exception:       # noqa
+                    continue
         for _ in range(docs_per_model):
             r = rnd.random()
             if names and r < 0.6:
